@@ -76,3 +76,10 @@ Print Assumptions C12_mem_merge_three_any_order.
 Print Assumptions C12_mem_merge_then_update.
 Print Assumptions C12_mem_mismatch_rejected.
 Print Assumptions C12_redis_merge_refines.
+
+(* Redis: sketches of different dimensions are rejected and the store (both sketches) is left as it was *)
+From GX.Proofs Require RedisExtras.
+Theorem C12_redis_mismatch_rejected : forall s a b,
+  rc_rows a <> rc_rows b \/ rc_cols a <> rc_cols b -> rcms_merge s a b = (Err E_MISMATCH, s).
+Proof. exact RedisExtras.rcms_merge_mismatch. Qed.
+Print Assumptions C12_redis_mismatch_rejected.
